@@ -93,6 +93,10 @@ def out_tok(v) -> str:
         return "s:" + v
     if isinstance(v, (tuple, list)):
         return ("t(" if isinstance(v, tuple) else "l(") + ",".join(out_tok(x) for x in v) + ")"
+    if isinstance(v, dict):
+        # a dict yielded by PDict is modelled as the tuple of its values in key order (the keys are static and are
+        # checked on the real objects by the reference oracle of harness/pat_reg_misc.py)
+        return "t(" + ",".join(out_tok(x) for x in v.values()) + ")"
     try:
         import numpy as np
         if isinstance(v, np.integer):
